@@ -669,4 +669,126 @@ def Operand.order (db : Db) (small : Rat) (op : Op) (a b : Operand) : Except Err
   | .error e => .error e
   | .ok v2 => .ok (op.apply a.own v2)
 
+/-! ## 7. pooled objects with identity, and what is done with them before they are compared
+
+A comparison is rarely the first thing that happens to an object: it has been hashed (used as a dict
+key), it has been an operand of `+ - * /`, it has been converted, copied, pickled.  The objects of a
+pool are values (`Obj`, their descriptors) together with their identity; the only state an operation
+leaves behind that a later `==`, `!=` or `hash` reads is the memo `Quantity._hash`. -/
+
+/-- what `Quantity.__hash__` computes once and keeps in `_hash` -/
+abbrev QKey := List (Sym × Sym × Int) × Sym
+
+def Qty.key (q : Qty) : QKey := (q.hashItems, q.caption)
+
+/-- the `Quantity` object whose `__hash__` the hash of the object goes through: a Quantity itself,
+`_quantity` of a Scalar (`hash((self._value, self._quantity))`) -/
+def Obj.heldQty : Obj → Option Qty
+  | .quantity q => Option.some q
+  | .scalar _ q => Option.some q
+  | _ => Option.none
+
+/-- a pooled object: its descriptor, its identity (`id(o)`) and the identity of the Quantity object
+it holds (`id(o)` of a Quantity, `id(o._quantity)` otherwise; quantities are interned, so many objects
+share one) -/
+structure PObj where
+  obj : Obj
+  oid : Nat
+  qid : Nat
+deriving DecidableEq, Repr
+
+/-- one object has one descriptor, and one Quantity object has one content -/
+def PObj.compatible (a b : PObj) : Bool :=
+  (a.oid != b.oid || a.obj == b.obj) &&
+  (match a.obj.heldQty, b.obj.heldQty with
+   | some qa, some qb => a.qid != b.qid || qa == qb
+   | _, _ => true)
+
+/-- the pool is well-formed: identities determine descriptors -/
+def poolWF (pool : List PObj) : Bool := pool.all fun a => pool.all fun b => a.compatible b
+
+structure Session where
+  pool : List PObj
+  /-- `_hash` of the Quantity objects hashed so far, by identity -/
+  memo : List (Nat × QKey)
+deriving Repr
+
+def Session.fresh (pool : List PObj) : Session := ⟨pool, []⟩
+
+def memoGet : List (Nat × QKey) → Nat → Option QKey
+  | [], _ => none
+  | (i, k) :: m, id => if i == id then some k else memoGet m id
+
+/-- `Quantity.__hash__` of the Quantity object `id` with content `q`:
+`try: return self._hash / except AttributeError: self._hash = hash(tuple(lst))` -/
+def Session.qtyHash (s : Session) (id : Nat) (q : Qty) : QKey × Session :=
+  match memoGet s.memo id with
+  | some k => (k, s)
+  | none => (q.key, { s with memo := (id, q.key) :: s.memo })
+
+/-- `hash(pool[i])` in the session (as `pyHash`, the Quantity part through the memo) -/
+def Session.hash (s : Session) (i : Nat) : Except ErrKind HKey × Session :=
+  match s.pool[i]? with
+  | none => (.error .index, s)
+  | some p =>
+    match p.obj.cls.hashSlot with
+    | .unhashable => (.error .type, s)
+    | .raises => (.error .readonly, s)
+    | _ =>
+      match p.obj with
+      | .quantity q => let r := s.qtyHash p.qid q; (.ok (.quantity r.1.1 r.1.2), r.2)
+      | .scalar v q => let r := s.qtyHash p.qid q; (.ok (.scalar v r.1.1 r.1.2), r.2)
+      | .none => (.ok .none, s)
+      | .str x => (.ok (.str x), s)
+      | .num x => (.ok (.num x), s)
+      | .tuple xs => (.ok (.tuple xs), s)
+      | _ => (.error .other, s)
+
+/-- `hash(pool[i])` of the descriptor alone -/
+def Session.pureHash (s : Session) (i : Nat) : Except ErrKind HKey :=
+  match s.pool[i]? with
+  | none => .error .index
+  | some p => pyHash p.obj
+
+/-- `pool[i] == pool[j]` (`a is b` is equality of the identities) -/
+def Session.eq (s : Session) (small : Rat) (i j : Nat) : Except ErrKind Bool :=
+  match s.pool[i]?, s.pool[j]? with
+  | some a, some b => pyEq small a.obj b.obj (a.oid == b.oid)
+  | _, _ => .error .index
+
+/-- `pool[i] != pool[j]` -/
+def Session.ne (s : Session) (small : Rat) (i j : Nat) : Except ErrKind Bool :=
+  match s.pool[i]?, s.pool[j]? with
+  | some a, some b => pyNe small a.obj b.obj (a.oid == b.oid)
+  | _, _ => .error .index
+
+/-- what is done with pooled objects between their creation and a comparison -/
+inductive StirOp
+  /-- `hash(o)`, `{o: …}`: memoises `_hash` of the Quantity object involved -/
+  | hash (i : Nat)
+  /-- `==`, `!=`, `<` …: the comparison methods only read -/
+  | cmp (i j : Nat)
+  /-- `o_i + o_j`, `-`, `*`, `/` (succeeding or raising): `_DoOperationWithSameQuantity` matches the
+  units on `copy.deepcopy` of both composing maps, `_DoOperationResultingInNewQuantity` on
+  `GetCategoryToUnitAndExpsCopy()` of both; the operands keep theirs; the result is a new object -/
+  | arith (i j : Nat)
+  /-- conversions (`GetValue(unit)`, `ConvertScalarValue`), `CreateCopy`, `copy`/`deepcopy`,
+  pickling, `str`/`repr`: read the operand, build other objects -/
+  | read (i : Nat)
+deriving DecidableEq, Repr
+
+def Session.step (s : Session) : StirOp → Session
+  | .hash i => (s.hash i).2
+  | .cmp _ _ => s
+  | .arith _ _ => s
+  | .read _ => s
+
+def Session.run (s : Session) (ops : List StirOp) : Session := ops.foldl Session.step s
+
+/-- `AbstractValueWithQuantityObject.__hash__(o)` called explicitly (what `super().__hash__()` of a
+subclass reaches): a plain function, it raises `NotImplementedError` whatever `o` is.  `hash(o)` itself
+never gets there for the nine classes (`Cls.hashSlot` is never `.raises`: Scalar defines `__hash__`,
+Array, FixedArray and FractionScalar define `__eq__` without it). -/
+def absBaseHash (_o : Obj) : Except ErrKind HKey := .error .readonly
+
 end Barril
